@@ -13,8 +13,8 @@ CHECKS = {
          "Exploration of generated histories (proptest, shrinking) with the oracle checked after every client step: data applied through PayloadTarget == source snapshot named by Client::state() restricted to the negotiated version, state and timing equality, failed steps apply nothing. Reaches version downgrade, diff vs reset vs cache-reset fallback, serial wrap, mid-response updates, which the example tests cannot.",
          "Single-threaded scheduler owned by the harness; reference source/model in rtrsim.rs is trusted; absence is not proven beyond the explored histories.",
          "DESIGN.md §3 C06"),
- "C07": ("round-trip + fault-injection PBT: generated PDUs / PDU sequences written and read back through every reader; every truncation point and header corruption against a reference model of the type/length/version rules; deterministic poll / byte / EOF-poll counters instead of timeouts",
-         "Exploration with generated values plus exhaustive header enumeration (all type and version bytes, boundary lengths) and all truncation points per generated sequence; hang detection is by counting polls of an exhausted in-memory reader, so it is deterministic.",
+ "C07": ("round-trip + fault-injection PBT: generated PDUs / PDU sequences written and read back through every reader; every truncation point and header corruption against a reference model of the type/length/version rules; deterministic poll / byte / EOF-poll counters instead of timeouts; hand-written ASPA PDUs beyond the constructors' provider limit through every reader and through Client::update (three-valued: refused within the byte bound, or exact framing and exact providers)",
+         "Exploration with generated values plus exhaustive header enumeration (all type and version bytes, boundary lengths) and all truncation points per generated sequence; hang detection is by counting polls of an exhausted in-memory reader, so it is deterministic. A 'foreign' sub-check feeds PDUs the constructors cannot build (0-200000 providers).",
          "In-memory AsyncRead that never returns Pending; announced lengths above 1 MiB are not handed to allocating body readers (memory is not part of the statement); reference length rules from RFC 8210 / 8210bis as implemented.",
          "DESIGN.md §3 C07"),
  "C08": ("metamorphic + model PBT over schedules: generated client byte streams x fragmentations x notify interleavings against the real rtr::Server; output minus Serial Notify must equal the one-chunk no-notify reference run; independent PDU parser; exhaustive 2-chunk splits x notify positions for single-query streams",
@@ -25,40 +25,40 @@ CHECKS = {
          "Random exploration of every constructor / text / serde path with a model on integers, complete enumeration of all ordered pairs and triples over a boundary-dense domain of valid prefixes for covers / total-order / hash laws, random RouteOrigin triples and AS multisets with forced duplicates.",
          "std::net address parsing/formatting and BTreeSet are trusted; the pair/triple domain is boundary-dense, not all prefixes.",
          "DESIGN.md §3 C13"),
- "C15": ("exhaustive small-domain enumeration of filter x payload combinations + random filter lists and whole files; reference drop predicate on integer address ranges; JSON round trip through all four serialiser forms",
-         "Complete enumeration of the criterion-presence x match-relation domain for all three filter kinds against 9 payloads, plus random exploration of larger filter lists and of whole files for the serde round trip and iter_payload.",
+ "C15": ("exhaustive small-domain enumeration of filter x payload combinations + random filter lists and whole files; reference drop predicate on integer address ranges; JSON round trip through all four serialiser forms; the file's JSON in foreign spellings (member order, white space, escapes) and from_reader over a piecewise reader",
+         "Complete enumeration of the criterion-presence x match-relation domain for all three filter kinds against 9 payloads, plus random exploration of larger filter lists and of whole files for the serde round trip and iter_payload. The JSON round trip also runs on an independently re-spelled document and through a reader that delivers the text in pieces; provider sets reach the maximum of 16380.",
          "Reference predicate written from the statement; serde_json is trusted as the JSON reader/writer.",
          "DESIGN.md §3 C15"),
- "C03": ("PBT against an independent interval-set model (iset.rs) over every public entry point (FromIterator, builders, FromStr incl. hostile text, serde, DER written by the library and by the harness, set operations, Refuse/Trim issuance, resource limits, prefix decomposition) + complete enumeration of all sequences of <=3 blocks and all pairs of sets over 8-point domains with a bitmap oracle",
-         "Random exploration with forced classes (bridging, adjacent, nested, touching 0/max, dotted-quad IPv6) checks canonical form and denotation of every obtained collection against the model; two exhaustive enumerations over small domains per family decide construction and all pair operations there completely (bitmap oracle, the model itself is cross-checked against it on every run).",
+ "C03": ("PBT against an independent interval-set model (iset.rs) over every public entry point (FromIterator, builders, FromStr incl. hostile text, serde, DER written by the library and by the harness, set operations, Refuse/Trim issuance, resource limits, prefix decomposition) + complete enumeration of all sequences of <=3 blocks and all pairs of sets over 8-point domains with a bitmap oracle; BER-mode decoders on lists with non-zero unused bits, resource limits in the older serde spellings",
+         "Random exploration with forced classes (bridging, adjacent, nested, touching 0/max, dotted-quad IPv6) checks canonical form and denotation of every obtained collection against the model; two exhaustive enumerations over small domains per family decide construction and all pair operations there completely (bitmap oracle, the model itself is cross-checked against it on every run). Foreign forms (BER unused bits, older serde member names) are three-valued: refused or equal.",
          "The interval model and its bitmap self-test are trusted; inverted (min>max) pairs are generated only for text and DER, not for the unchecked in-memory constructors (documented as caller precondition).",
          "DESIGN.md §3 C03"),
  "C12": ("exhaustive enumeration over a small alphabet (all strings to length 7/9 into every parser, all ordered pairs and triples of accepted rsync URIs, all join arguments to length 6/8) + random structured URIs; oracles: text-level reference model of scheme/authority/module/path, reference equality, algebraic laws of join/parent/relative_to/is_parent_of",
-         "Complete enumeration of the stated small-alphabet domain (parse, pairs, triples, join) plus random exploration beyond it (long hosts, ports, mixed case, deep paths, forbidden and non-ASCII bytes). Three-valued acceptance oracle (must accept conventional authorities / must reject forbidden shapes / don't care) so the check never demands more than the statement.",
+         "Complete enumeration of the stated small-alphabet domain (parse, pairs, triples, join) plus random exploration beyond it (long hosts, ports, mixed case, deep paths, forbidden and non-ASCII bytes). Three-valued acceptance oracle (must accept conventional authorities / must reject forbidden shapes / don't care) so the check never demands more than the statement. The random part includes hosts of 64-380 octets and path segments of 100-300 octets.",
          "Reference model of the RFC 3986 subset documented in uri.rs; unusual-but-accepted authorities are don't-care for acceptance but must obey all laws once accepted.",
          "DESIGN.md §3 C12"),
  "C17": ("exhaustive enumeration: every day of years 1-9999 x boundary seconds (+ all seconds of selected days) against an independent days-from-civil calendar and renderer; all single/double (triple) substitutions, insertions, deletions over 40 valid time strings with a three-valued acceptance oracle; all (not-before, not-after, now) triples over boundary instants; serial pairs over boundary values + random serials and decimal strings",
-         "Complete enumeration by day and over the near-valid string neighbourhoods, validity triples and serial boundary pairs; random exploration for 20-octet serials and decimal text. Encoding is compared byte-for-byte with the harness' own rendering, decoding with its own calendar.",
+         "Complete enumeration by day and over the near-valid string neighbourhoods, validity triples and serial boundary pairs; random exploration for 20-octet serials and decimal text. Encoding is compared byte-for-byte with the harness' own rendering, decoding with its own calendar. Validity windows are also decoded with either end in the other time form (three-valued: refused or the same window).",
          "Own proleptic Gregorian calendar in the harness; year 0000 and second 60 are don't-care; chrono is only used by the library.",
          "DESIGN.md §3 C17"),
- "C01": ("model-based PBT over generated certificate chains (library builder + deterministic pool signer, DER round trip before validation) against a reference interval-set model of accept/reject and of the validated resources; single-point tampering of accepted chains (TBS / signature bit flips, sibling issuer, foreign key, time edge, AKI, DER-patched SKI, foreign block)",
-         "Exploration of generated chains TA -> CA{0..2} -> EE/router/CA with per-family missing/inherit/blocks drawn relative to the issuer's validated set, both overclaim policies, validity edges at millisecond resolution; every accepted chain class is also tampered at a single point and must turn into rejection (Trim + foreign block: accepted with the intersection).",
+ "C01": ("model-based PBT over generated certificate chains (library builder + deterministic pool signer, DER round trip before validation) against a reference interval-set model of accept/reject and of the validated resources; single-point tampering of accepted chains (TBS / signature bit flips, sibling issuer, foreign key, time edge, AKI, DER-patched SKI, foreign block); every certificate also in the dress of a foreign writer (der::Dress: extension order, unknown extensions, CPS qualifier, further CRL-DP / SIA entries, non-canonical but equivalent RFC 3779 lists, family order), re-signed, with a one-directional verdict (accepted => model)",
+         "Exploration of generated chains TA -> CA{0..2} -> EE/router/CA with per-family missing/inherit/blocks drawn relative to the issuer's validated set, both overclaim policies, validity edges at millisecond resolution; every accepted chain class is also tampered at a single point and must turn into rejection (Trim + foreign block: accepted with the intersection). Certificates are also validated in foreign dress (re-encoded and re-signed by an independent DER editor); for those only 'accepted implies the model accepts with the model's resources' is demanded.",
          "RSA-SHA256 is trusted to reject modified signed bytes (flips confined to TBS bytes / signature value); chains are built with the library's own TbsCert builder (C05 decides builder/decoder agreement); private interval model in c01.rs.",
          "DESIGN.md §3 C01"),
  "C05": ("round-trip PBT per builder (certificate, CRL, manifest, ROA, ASPA, CSR, IdCert, signed message): decode(encode(built)) validates, re-encoding the decoded twin reproduces the bytes (outer object, to-be-signed part, inner content), accessor snapshots of built and decoded twin are identical and panic-free; independent TLV walk for list presence",
          "Exploration of profile-conforming builder inputs (serial widths, both time encodings, URIs with/without trailing slash, resource sets of all shapes, unsorted/duplicate entry lists, up to 300 revoked / 40 files / 16380-bounded providers).",
          "Generators stay inside the object profiles (whole seconds, non-empty provider sets without the customer, max-length within the family); Roa::process/Aspa::process read the wall clock and are only called for windows covering 2000..2200.",
          "DESIGN.md §3 C05"),
- "C09": ("round-trip PBT of notification/snapshot/delta values through every parser and reader-buffer size; XML-aware mutation fuzzing (in-process) of written and sample files; unbounded lazy byte streams with a counting reader against the per-element byte bound (exhaustive over offending-construct x position for header limits); model check of sort_and_verify_deltas / has_matching_origins",
-         "Exploration for the round trip, mutated bytes and the delta-chain model; complete enumeration of the hostile-stream shapes for the 1 MB header limit, sampled for the 100 MB content limit. Bounds are judged by bytes pulled from a counting BufRead, never by time.",
+ "C09": ("round-trip PBT of notification/snapshot/delta values through every parser and reader-buffer size; XML-aware mutation fuzzing (in-process) of written and sample files; unbounded lazy byte streams with a counting reader against the per-element byte bound (exhaustive over offending-construct x position for header limits); model check of sort_and_verify_deltas / has_matching_origins; metamorphic re-spelling of written files (xmlrespell): equivalent XML parses to an equal value or is refused",
+         "Exploration for the round trip, mutated bytes and the delta-chain model; complete enumeration of the hostile-stream shapes for the 1 MB header limit, sampled for the 100 MB content limit. Bounds are judged by bytes pulled from a counting BufRead, never by time. Written files are also offered in equivalent XML spellings (attribute order, quotes, white space, comments, empty-element forms, character references): equal value or refusal.",
          "Peak heap is not measured (no counting allocator in this check); streams of endlessly many valid elements are outside the hostile-stream generator (parse_limited exists for that by design).",
          "DESIGN.md §3 C09"),
- "C11": ("round-trip + idempotence PBT over all 16 message variants of RFC 6492/8181/8183 with XML-special characters in every field that admits them; independent well-formedness and attribute-value oracle (Python expat on batches); XML-aware mutation of written and sample messages into every parser (no panic)",
-         "Exploration over generated messages built through public API from protocol-valid values; every written document is additionally parsed by expat and its element order, attribute values and text compared with an independent model of the message.",
+ "C11": ("round-trip + idempotence PBT over all 16 message variants of RFC 6492/8181/8183 with XML-special characters in every field that admits them; independent well-formedness and attribute-value oracle (Python expat on batches); XML-aware mutation of written and sample messages into every parser (no panic); metamorphic re-spelling of written messages (xmlrespell incl. time stamps with numeric UTC offsets): equal message or refusal",
+         "Exploration over generated messages built through public API from protocol-valid values; every written document is additionally parsed by expat and its element order, attribute values and text compared with an independent model of the message. Written documents are also offered in equivalent XML spellings: an equal message or a refusal, never a different message.",
          "python3 with expat must be present (absent => exit 2, inconclusive); publication PDUs with tag None and ErrorReply::empty() are outside the protocol-valid domain and only take part in the idempotence relation / are excluded.",
          "DESIGN.md §3 C11"),
- "C02": ("differential PBT in both directions: signed objects assembled by an independent RFC 5652/6488 DER writer (der.rs; content types of 1-40 octets so the signed-attribute set crosses 127/128 octets; open encoding choices varied) must be accepted iff digest, signature, sid, EE certificate and resource coverage hold; every library-built object is verified by the harness' own CMS verifier; 12 kinds of single-point tampering must be rejected",
-         "Exploration over generated generic objects, ROAs, ASPAs and manifests from the independent writer and from the library builders, with EE resources / prefixes / customer AS drawn relative to each other (interval model), evaluation times on the validity edges, CRL callback verdicts; at most one violated condition per case so the iff is decided condition by condition.",
+ "C02": ("differential PBT in both directions: signed objects assembled by an independent RFC 5652/6488 DER writer (der.rs; content types of 1-40 octets so the signed-attribute set crosses 127/128 octets; open encoding choices varied) must be accepted iff digest, signature, sid, EE certificate and resource coverage hold; every library-built object is verified by the harness' own CMS verifier; 12 kinds of single-point tampering must be rejected; EE certificates of independent-writer objects in foreign dress, ROAs with the IPv6 family first",
+         "Exploration over generated generic objects, ROAs, ASPAs and manifests from the independent writer and from the library builders, with EE resources / prefixes / customer AS drawn relative to each other (interval model), evaluation times on the validity edges, CRL callback verdicts; at most one violated condition per case so the iff is decided condition by condition. The EE certificate of an independent-writer object may come in foreign dress (der::Dress): acceptance is demanded for what RFC 6487/7318/3779 allow, optional for the rest, rejection of violated conditions always.",
          "RSA-SHA256 and SHA-256 from aws-lc-rs are trusted (used directly, not through the library); tampering is confined to signed bytes / the signature value; der.rs has its own self-check sub-check.",
          "DESIGN.md §3 C02"),
  "C04": ("structure-aware mutation PBT (TLV tree mutations of valid seeds of all 15 entry points, strict and relaxed; every proper prefix of every seed; re-signed protocol messages with mutated CRLs; random bytes) with an accessor-walk oracle (every getter / iterator / validation / re-encoding under a panic guard) and a counting-allocator bound + coverage-guided libFuzzer target der_decoders with a DER-aware custom mutator and the same oracle",
@@ -66,7 +66,7 @@ CHECKS = {
          "CPU-only super-linear behaviour without allocation is only seen by the watchdog (exit 2); stack overflows / aborts are isolated by the driver's journal mode; the walk validates against test-data/ta.cer only.",
          "DESIGN.md §3 C04"),
  "C10": ("differential PBT: messages created by the library (every evaluation-time position, right key and 7 other keys, bit flips) and messages assembled by the independent DER writer (EE identity certificate and CRL variants, 0-4 extra signed attributes so the set spans 100-700 octets, at most one violated condition) against the accept-iff oracle; own CMS verifier for library-created messages; ProvisioningCms/PublicationCms create-decode-validate",
-         "Exploration with one fault kind per case (13 kinds: digest, signature, sid, EE signer, EE window, EE is CA, CRL signer, CRL window, EE revoked, ...) so that each conjunct of the iff is exercised in both directions.",
+         "Exploration with one fault kind per case (13 kinds: digest, signature, sid, EE signer, EE window, EE is CA, CRL signer, CRL window, EE revoked, ...) so that each conjunct of the iff is exercised in both directions. The independent writer also permutes the EE certificate's extensions and puts crlEntryExtensions on revoked entries.",
          "RSA/SHA from aws-lc-rs trusted; the created/protocol sub-checks read the wall clock only as the base of validity windows with margins of minutes; AKI/SKI mismatch cases are not generated (not named in the statement).",
          "DESIGN.md §3 C10"),
  "C14": ("PBT with manifests assembled by the independent DER writer (0-300 entries, ~60 hostile file-name shapes, hash bit strings of 0-64 octets with unused bits, both time orders/types) against the reference predicate ^[A-Za-z0-9_-]+\\.[A-Za-z]{3}$ + exhaustive enumeration of all names of length 0-5 over a 9-character alphabet",
